@@ -317,7 +317,7 @@ def run_kani(unit, spec, harnesses, pid, bdir, ex, jobs, tier):
         if o is None:
             continue
         o.time_s = r.get('duration_ms', 0) / 1000.0
-        st = cb.get(r['harness_id'], {}).get('cbmc_stats', {})
+        st = (cb.get(r['harness_id']) or {}).get('cbmc_stats') or {}
         info['solver_s'] += st.get('runtime_decision_procedure_s', 0) or 0
         checks = r.get('checks', [])
         o.checks = len(checks)
